@@ -197,3 +197,100 @@ fn run_case(case: &Val) -> Val {
 fn verif_rpki_cases() {
     val::run_cases(run_case);
 }
+
+// ---------------------------------------------------------------------------
+// Property C12, "the validation state ... shown by the API": TableManager::collect_paths
+// annotates every path with RpkiTable::validate.  case = [vrps, routes]
+//   vrps   = [[net, maxlen, asn], ...]      installed with rpki_insert (one cache)
+//   routes = [[net, local_asn, [[code, [bytes]], ...]], ...]   distinct prefixes, each inserted with
+//            insert_route from its own source (session local AS = local_asn)
+// observation = one entry per route, in route order:
+//   [] when the API lists no such destination, else [v] with
+//   v = [] (no annotation) | [[state, reason, n_matched, n_unmatched_asn, n_unmatched_length]]
+fn run_api_case(case: &Val) -> Val {
+    let tables: TableHandle = Arc::new(crate::table_manager::TableManager::new(2));
+    let cache = Arc::new(IpAddr::V4(Ipv4Addr::new(192, 0, 2, 1)));
+    let mut v = Vec::new();
+    for r in case.at(0).list() {
+        let n = r.at(0);
+        v.push((
+            packet::IpNet::new(hx_addr(n.at(0).int(), &n.at(1).bytes()), n.at(2).u8()),
+            Arc::new(table::Roa::new(r.at(1).u8(), r.at(2).u32(), cache.clone())),
+        ));
+    }
+    tables.rpki_insert(v);
+    let mut nets = Vec::new();
+    for (i, r) in case.at(1).list().iter().enumerate() {
+        let n = r.at(0);
+        let (family, nlri, nh) = match hx_addr(n.at(0).int(), &n.at(1).bytes()) {
+            IpAddr::V4(addr) => (
+                packet::Family::IPV4,
+                packet::Nlri::V4(packet::bgp::Ipv4Net { addr, mask: n.at(2).u8() }),
+                packet::bgp::Nexthop::V4(Ipv4Addr::new(10, 9, 9, 9)),
+            ),
+            IpAddr::V6(addr) => (
+                packet::Family::IPV6,
+                packet::Nlri::V6(packet::bgp::Ipv6Net { addr, mask: n.at(2).u8() }),
+                packet::bgp::Nexthop::V6(Ipv6Addr::new(0x2001, 0xdb8, 0, 0, 0, 0, 0, 9)),
+            ),
+        };
+        let source = Arc::new(table::Source::new(
+            IpAddr::V4(Ipv4Addr::new(10, 0, (i / 250) as u8, (i % 250) as u8 + 1)),
+            IpAddr::V4(Ipv4Addr::new(10, 0, 255, 254)),
+            64999,
+            r.at(1).u32(),
+            Ipv4Addr::new(1, 1, 1, 1),
+            table::PeerRole::Ebgp,
+        ));
+        let mut attrs = Vec::new();
+        for a in r.at(2).list() {
+            let code = a.at(0).u8();
+            if code == packet::Attribute::AS_PATH {
+                attrs.push(packet::Attribute::new_with_bin(code, a.at(1).bytes()).expect("as_path"));
+            } else {
+                attrs.push(packet::Attribute::new_with_value(code, 0).expect("value attribute"));
+            }
+        }
+        tables.insert_route(source, family, packet::PathNlri::new(nlri.clone()), Some(nh), Arc::new(attrs), None, 0);
+        nets.push((family, nlri));
+    }
+    let mut all = Vec::new();
+    for fam in [packet::Family::IPV4, packet::Family::IPV6] {
+        all.extend(tables.collect_paths(table::TableQuery::Global, fam, Vec::new(), false));
+    }
+    let mut obs = Vec::new();
+    for (_, nlri) in &nets {
+        match all.iter().find(|d| &d.net == nlri) {
+            None => obs.push(Val::L(vec![])),
+            Some(d) => {
+                let p = &d.paths[0];
+                let v = Val::opt(p.validation.as_ref().map(|r| {
+                    let st = match r.state {
+                        table::RpkiValidationState::NotFound => 0u8,
+                        table::RpkiValidationState::Valid => 1,
+                        table::RpkiValidationState::Invalid => 2,
+                    };
+                    let rs = match r.reason {
+                        table::RpkiValidationReason::None => 0u8,
+                        table::RpkiValidationReason::Asn => 1,
+                        table::RpkiValidationReason::Length => 2,
+                    };
+                    Val::L(vec![
+                        Val::n(st),
+                        Val::n(rs),
+                        Val::us(r.matched.len()),
+                        Val::us(r.unmatched_asn.len()),
+                        Val::us(r.unmatched_length.len()),
+                    ])
+                }));
+                obs.push(Val::L(vec![v]));
+            }
+        }
+    }
+    Val::L(obs)
+}
+
+#[test]
+fn verif_rpki_api_cases() {
+    val::run_cases(run_api_case);
+}
